@@ -376,6 +376,13 @@ class SerProblem:
             exprs += list(a.preconditions)
             for e in a.effects:
                 exprs += [e.value, e.condition] + list(e.fluent.args)
+        for m in getattr(p, "quality_metrics", []):
+            if m.is_minimize_action_costs():
+                exprs += [c for c in m.costs.values() if c is not None] + ([m.default] if m.default is not None else [])
+            elif m.is_minimize_expression_on_final_state() or m.is_maximize_expression_on_final_state():
+                exprs.append(m.expression)
+            elif m.is_oversubscription():
+                exprs += list(m.goals.keys())
         stack = list(exprs)
         while stack:
             x = stack.pop()
